@@ -329,7 +329,17 @@ fn bdd_api_case(ctx: &mut Ctx, rng: &mut Rng) {
         let pc = new_wmc_params_complex();
         let pp = new_wmc_params_poly();
         let by_value_structs = !crate::caps::small();
-        for v in 0..n {
+        // weight tables are filled through C in a scrambled order, every other label first
+        // with swapped weights and then overwritten: the table must hold the last value set
+        let mut fill_order = rng.perm(n);
+        for v in fill_order.clone() {
+            if v % 2 == 0 {
+                wmc_param_f64_set_weight(pf, v as u64, wr[v].1.to_r().0, wr[v].0.to_r().0);
+                wmc_param_complex_set_weight(pc, v as u64, wc[v].1.to_r(), wc[v].0.to_r());
+            }
+        }
+        fill_order.reverse();
+        for v in fill_order {
             let (l, h) = (wr[v].0.to_r(), wr[v].1.to_r());
             wmc_param_f64_set_weight(pf, v as u64, l.0, h.0);
             let (cl, ch) = (wc[v].0.to_r(), wc[v].1.to_r());
